@@ -308,6 +308,8 @@ def check_sim(ctx, c):
 
 RULE = RULE + " " + ('Since seeded round 4 the lookup facet asks the same trajectory object a second question (the same number in another time unit, as UnitValue or string) and then the first question again.')
 
+RULE = RULE + " " + ("Since seeded round 5 the lookup facet also asks at a hair's breadth (relative 2^-24 .. 2^-40) before / after a sample time.")
+
 FACETS = [
     Facet("accessors", check_accessors, strategy=strat_accessors, examples=(1500, 40000), shards=(8, 16)),
     Facet("lookup", check_lookup, strategy=strat_lookup, examples=(6000, 200000), shards=(8, 16)),
